@@ -472,14 +472,14 @@ pub fn check(ctx: &Ctx) -> Check {
         Box::new(RandomPart {
             name: "laws-random",
             rule: "random spectra (1..4 axes, lengths 1..9, integer/real/sparse non-negative values) x random admissible target: equals the direct double sum, mass, non-negativity, identity, two-step == direct, commutes with marginalization, inadmissible targets rejected; non-trivial = target strictly smaller on >=1 axis and >=2 non-zero source cells",
-            cases: ctx.tier.pick(1500, 20_000),
+            cases: ctx.tier.pick(1500, 60_000),
             strategy: Box::new(|| random_strategy().boxed()),
             eval: Box::new(eval_random),
         }),
         Box::new(RandomPart {
             name: "large-1d",
             rule: "one-axis sizes around the implementation's edges (169..172, 340..342, 1028..1031, 2047/2048, up to 2400; thorough up to 6000 chromosomes), sparse inputs, targets 1..n and (35%) targets at the edge of the band where C(n, m) overflows f64: finite, agrees with the ratio-recurrence oracle to 1e-8, mass preserved; non-trivial = m < n",
-            cases: ctx.tier.pick(96, 800),
+            cases: ctx.tier.pick(96, 3000),
             strategy: {
                 let max_n = ctx.tier.pick(2400usize, 6000);
                 Box::new(move || large_strategy(max_n).boxed())
@@ -489,14 +489,14 @@ pub fn check(ctx: &Ctx) -> Check {
         Box::new(RandomPart {
             name: "cli-view",
             rule: "sfs view --project-shape / -p on text and npy files vs the oracle at the printed precision; -p i == --project-shape 2i+1 byte for byte; inadmissible targets fail cleanly",
-            cases: ctx.tier.pick(200, 2000),
+            cases: ctx.tier.pick(200, 6000),
             strategy: Box::new(|| cli_strategy().boxed()),
             eval: Box::new(eval_cli),
         }),
         Box::new(RandomPart {
             name: "create-then-project",
             rule: "call sets without missing data x maps x admissible targets: `create | view --project-shape t` must agree with `create --project-shape t` to the printed precision (3..10 decimals); non-trivial = a strictly smaller target and >=2 records",
-            cases: ctx.tier.pick(400, 4000),
+            cases: ctx.tier.pick(400, 10_000),
             strategy: Box::new(|| create_project_strategy().boxed()),
             eval: Box::new(eval_create_project),
         }),
